@@ -78,7 +78,27 @@ def pred_in(items, c, flags, is_str):
     return neg(r) if negate else r
 
 
+_cond_cache = {}
+
+
 def single_cond(op, av, c, flags, is_str):
+    """condition: element c matches the single-width item (op, av); cached per
+    (item, element) -- the parsed trees are kept alive by their Matcher / NFA
+    cache, and z3 hash-conses element terms, so ids are stable"""
+    if isinstance(c, int) or (is_str and op is sc.IN and any(o is sc.CATEGORY for o, _ in av)):
+        return _single_cond(op, av, c, flags, is_str)     # (Unicode categories may fork: not cached)
+    key = (op, id(av) if op is sc.IN else av, flags, c.get_id())
+    r = _cond_cache.get(key)
+    if r is None:
+        r = _single_cond(op, av, c, flags, is_str)
+        if len(_cond_cache) > 200000:
+            _cond_cache.clear()
+        _cond_cache[key] = (r, av, c)
+        return r
+    return r[0]
+
+
+def _single_cond(op, av, c, flags, is_str):
     if flags & _re.IGNORECASE:
         raise Unmodelled('regex IGNORECASE')
     if op is sc.LITERAL:
